@@ -68,6 +68,13 @@ def run(ctx):
         progs.append({"program": body, "inputs": inp, "constants": consts})
         progs.append({"program": "r_ = (repr(k), k.to_numpy(), k.ndim, k.shape, str(k2)); " + body, "inputs": inp, "constants": consts})
         read_pairs.append((ia, ia + 1))
+    for body, extra in [("out = x + 1", "m_ = x[ndx.asarray(np.array([True, False, True]))]; "), ("y_ = x * 2; out = y_", "m_ = x[x[:, 0] > 0]; "),
+                        ("out = ndx.sum(x, axis=0)", "m_ = x[ndx.asarray(np.array([True, True, False]))]; n_ = x[0, ...]; ")]:
+        inp = {"x": {"dtype": "float64", "sig": [3, 2]}}
+        ia = len(progs)
+        progs.append({"program": body, "inputs": inp, "constants": {}})
+        progs.append({"program": extra + body, "inputs": inp, "constants": {}})
+        read_pairs.append((ia, ia + 1))
     for kp in KEYED:
         progs.append({"program": kp, "inputs": {"s": {"dtype": "utf8", "sig": ["N"]}, "a": {"dtype": "int64", "sig": ["N"]}}, "constants": {}})
     n = len(progs)
